@@ -91,7 +91,7 @@ def screen():
     return s
 
 
-def deliver(chunks, fire_after=()):
+def deliver(chunks, fire_after=(), as_type=None):
     """Feed chunks through the real parse_input exactly as get_available_raw_input + the event loop would.
     fire_after: indices of chunks after which the completion time-out fires (if one is pending).
     Returns (events, raws, info)."""
@@ -109,6 +109,8 @@ def deliver(chunks, fire_after=()):
         # the real read path: get_available_raw_input() prepends what the last parse left over (an empty chunk is a wake-up without terminal bytes)
         scr._get_input_codes = lambda ch=ch: list(ch)
         codes = scr.get_available_raw_input()
+        if as_type is not None:
+            codes = as_type(codes)  # parse_input documents any sequence of byte values ("a bytearray is appropriate")
         scr.parse_input(loop, cb, codes)
         if i in fire_after and loop.alarms:
             (h, f) = next(iter(loop.alarms.items()))
@@ -226,6 +228,19 @@ def check_split(ctx: Ctx, mode, stream, whole, max_cuts, timeouts):
                     ctx.violation("split-invariant", f"C05/split-invariant/{mode}/empty-read/{sig_kind(stream)}", case, f"whole: {whole}; split at {cuts} with an empty read after cut {j}: {ev} (raw {raws})")
                 if info["max_outstanding"] > 1 or info["stale"]:
                     ctx.violation("alarm-hygiene", f"C05/alarm-hygiene/{mode}/empty-read", case, f"alarms outstanding {info['max_outstanding']}, stale alarms fired at the end {info['stale']}")
+
+            # the caller hands parse_input another sequence type (its docstring: "a bytearray is appropriate"); one cut is enough to leave a remainder
+            if k == 1:
+                for tname, typ in (("bytearray", bytearray), ("tuple", tuple)):
+                    ctx.count("evaluations")
+                    case = dict(case0, cuts=list(cuts), as_type=tname)
+                    try:
+                        ev, raws, info = deliver(chunks, as_type=typ)
+                    except Exception as e:
+                        ctx.violation("no-raise", f"C05/no-raise-split/{mode}/{tname}/{exc_site(e)}", case, repr(e))
+                        continue
+                    if ev != whole or list(raws) != list(stream):
+                        ctx.violation("split-invariant", f"C05/split-invariant/{mode}/{tname}/{sig_kind(stream)}", case, f"whole: {whole}; split at {cuts} with codes given as {tname}: {ev} (raw {list(raws)})")
 
 
 # ---------------------------------------------------------------- streams of part 2
